@@ -123,100 +123,139 @@ def field_of_param(t, idx_param=1):
 
 
 def rule_staging(fx, rep):
-    # field order of Wnaf { base, scalar, window_size }
+    """The staged wNAF API, interpreted with the three helpers as uninterpreted constructors and both buffers holding
+    junk from an earlier use: stage 1 fills its buffer with (argument, recommended window) and hands out a context
+    that refers to the same two buffers and that same window; stage 2 fills the other buffer with the stored window and
+    evaluates wnaf_exp(table, digits) on the context's own buffers; shared() keeps the window.  Whatever the body looks
+    like, nothing of the junk may survive in what is used."""
+    import exp
+    from exp import Agg, Int, Ref, TOP
     a = fx.adts.get('wnaf::Wnaf')
     if a is None:
         rep.fail('WIRE', 'Wnaf:anchor', 'wnaf::Wnaf not found')
         return
     names = [f['name'] for f in a['variants'][0]['fields']]
     BASE, SCALAR, WIN = names.index('base'), names.index('scalar'), names.index('window_size')
+    W = roles.roles(fx)['wnaf']
     n = 0
-    for p, f in fx.fns.items():
+
+    def deep(fr, v, depth=0):
+        for _ in range(8):
+            if isinstance(v, Ref):
+                v = fr._project(fr.store.get(v.root, TOP), v.proj)
+            else:
+                break
+        return v
+
+    def where_ref(v):
+        """Which field of the context (param 1) a reference designates: ('self', field) or None."""
+        if isinstance(v, Ref) and v.root == ('*', 1):
+            fs = [e[1] for e in v.proj if e[0] == 'f']
+            return ('self', fs[0]) if fs else ('self', None)
+        return None
+
+    for p, f in sorted(fx.fns.items()):
         if not p.startswith('wnaf::Wnaf::<') or 'mir' not in f:
             continue
         nm = f['name']
-        b = fx.body(p)
-        o = Origin(b)
-        rep.fn(p)
-        calls = {}
-        for bi, t in b.calls():
-            c = callee(t)
-            if c:
-                calls.setdefault((c.get('res') or c['def']), []).append(t)
-        where = f['span']
         if nm == 'new':
             continue
+        rep.fn(p)
         n += 1
-        W = roles.roles(fx)['wnaf']
-        tbl = calls.get(W.get('table'), [])
-        frm = calls.get(W.get('form'), [])
-        ex = calls.get(W.get('exp'), [])
-        if nm == 'shared':
-            t = o.local(0)
-            ok = t[0] == 'agg' and t[1].get('adt') == 'wnaf::Wnaf'
-            if ok:
-                w = strip(t[2][WIN])
-                ok = w[0] == 'proj' and strip(w[1]) == ('param', 1) and [e[1] for e in w[2] if e[0] == 'f'] == [WIN]
-            rep.check(ok, 'WIRE', 'Wnaf::shared:%s' % f['impl_self_ty'][:40], 'window size copied unchanged', 'shared() does not copy window_size', where, construct=p)
-            continue
+        where = f['span']
         staged_first = f['impl_self_ty'].startswith('wnaf::Wnaf<()')
-        if staged_first:
-            # computes the window with the recommendation, fills one buffer with it, returns it in the context
-            t = o.local(0)
-            ok = t[0] == 'agg' and t[1].get('adt') == 'wnaf::Wnaf'
-            why = 'does not return a Wnaf'
-            if ok:
-                w = strip(t[2][WIN])
-                rec = 'recommended_wnaf_for_num_scalars' if nm == 'base' else 'recommended_wnaf_for_scalar'
-                ok = w[0] == 'call' and w[1].get('name') == rec
-                why = 'window comes from %s' % term_str(w)
-                fill = tbl if nm == 'base' else frm
-                if ok:
-                    ok = len(fill) == 1 and strip(o.operand(fill[0]['args'][2])) == w
-                    why = 'the fill routine does not receive the same window value'
-                if ok:
-                    fld = field_of_param(o.operand(fill[0]['args'][0]))
-                    ok = fld == (BASE if nm == 'base' else SCALAR)
-                    why = 'fills field %r' % fld
-                if ok:
-                    fb_ = next(bi for bi, tt in b.calls() if tt is fill[0])
-                    ok = all(b.dominates(fb_, rb) for rb in b.return_blocks())
-                    why = 'the buffer is not refilled on every path (the result would depend on what an earlier call left in the context)'
-                if ok:
-                    # the returned context borrows the same two buffers
-                    fb = field_of_param(t[2][BASE])
-                    fs = field_of_param(t[2][SCALAR])
-                    ok = fb == BASE and fs == SCALAR
-                    why = 'returned context borrows fields %r/%r' % (fb, fs)
-            rep.check(ok, 'WIRE', 'Wnaf::%s(stage 1)' % nm, 'window = recommendation; filled buffer and returned context use that same window and the context\'s own buffers', why, where, construct=p)
-        else:
-            fill = tbl if nm == 'base' else frm
-            ok = len(fill) == 1 and len(ex) == 1
-            why = 'fill=%d exp=%d' % (len(fill), len(ex))
-            if ok:
-                w = strip(o.operand(fill[0]['args'][2]))
-                ok = w[0] == 'proj' and strip(w[1]) == ('param', 1) and [e[1] for e in w[2] if e[0] == 'f'] == [WIN]
-                why = 'window passed to the fill routine is %s, not the context\'s window_size' % term_str(w)
-            if ok:
-                fld = field_of_param(o.operand(fill[0]['args'][0]))
-                ok = fld == (BASE if nm == 'base' else SCALAR)
-                why = 'fills field %r' % fld
-            if ok:
-                e0 = field_of_param(o.operand(ex[0]['args'][0]))
-                e1 = field_of_param(o.operand(ex[0]['args'][1]))
-                ok = e0 == BASE and e1 == SCALAR
-                why = 'wnaf_exp receives fields %r, %r (expected table, digits)' % (e0, e1)
-            if ok:
-                r0 = strip(o.local(0))
-                ok = r0[0] == 'call' and (r0[1].get('res') or '') == W.get('exp')
-                why = 'result is not wnaf_exp(..)'
-            if ok:
-                fb_ = next(bi for bi, tt in b.calls() if tt is fill[0])
-                eb_ = next(bi for bi, tt in b.calls() if tt is ex[0])
-                ok = b.dominates(fb_, eb_) and all(b.dominates(eb_, rb) for rb in b.return_blocks())
-                why = 'the buffer is not refilled on every path before wnaf_exp (history dependence)'
-            rep.check(ok, 'WIRE', 'Wnaf::%s(stage 2)' % nm, 'fills the other buffer with the stored window, then wnaf_exp(table, digits)', why, where, construct=p)
+
+        def tr(I, fr, t, c, pth):
+            r_ = c.get('res') or c['def']
+            args = t['args']
+            if r_ == W.get('table') or r_ == W.get('form'):
+                kind = 'table' if r_ == W.get('table') else 'digits'
+                fr.store_through(args[0], (kind, fr.operand(args[1]), fr.operand(args[2])))
+                pth.events.append((kind, where_ref(fr.operand(args[0])) or where_ref_of(fr, args[0])))
+                fr.storev(t['dest'], Agg([]))
+                return True
+            if r_ == W.get('exp'):
+                fr.storev(t['dest'], ('exp', deep(fr, fr.operand(args[0])), deep(fr, fr.operand(args[1]))))
+                return True
+            if c.get('name') in ('recommended_wnaf_for_num_scalars', 'recommended_wnaf_for_scalar'):
+                fr.storev(t['dest'], ('rec', c['name'], fr.operand(args[0])))
+                return True
+            if c.get('name') in ('index', 'index_mut', 'deref', 'deref_mut', 'as_slice', 'as_mut_slice') and 'std::vec::Vec' in r_:
+                # a full view of one of the context's buffers is that buffer
+                import stdmodel
+                rp = stdmodel.ref_of(fr, args[0])
+                full = len(args) == 1
+                if len(args) == 2:
+                    from facts import op_place as _opl
+                    pl_ = _opl(args[1])
+                    full = pl_ is not None and not pl_['p'] and fr.body.local_ty(pl_['l']).endswith('RangeFull')
+                if rp is not None and full:
+                    fr.storev(t['dest'], Ref(rp[0], rp[1]))
+                    return True
+                return False
+            if c.get('name') in ('as_mut', 'as_ref') and c.get('trait') in ('std::convert::AsMut', 'std::convert::AsRef'):
+                # generic B / S: the context's own field, viewed as the buffer
+                v = fr.operand(args[0])
+                if isinstance(v, Ref):
+                    fr.storev(t['dest'], v)
+                    return True
+            return False
+
+        def where_ref_of(fr, op):
+            import stdmodel
+            rp = stdmodel.ref_of(fr, op)
+            return where_ref(Ref(rp[0], rp[1])) if rp is not None else None
+        items = [None, None, None]
+        items[BASE], items[SCALAR], items[WIN] = 'OLD_TABLE', 'OLD_DIGITS', ('stored-window',)
+        ctx = Agg(items, ('wnaf::Wnaf', 'Wnaf'))
+        I = exp.Interp(fx, 'none', extra_transfer=tr)
+        args = [('byref', ctx)] + (['ARG', 'N'] if (staged_first and nm == 'base') else (['ARG'] if nm != 'shared' else []))
+        try:
+            res = I.run(p, args)
+        except (exp.NotDerivable, exp.Budget) as e:
+            rep.fail('WIRE', 'Wnaf::%s' % nm, 'not derivable: %s' % e, where, construct=p)
+            continue
+        rep.sites(I.call_sites)
+        res = [r for r in res if not (isinstance(r[1], tuple) and r[1] and r[1][0] == 'diverges')]
+        bad = []
+        if len(res) != 1:
+            bad.append('%d paths' % len(res))
+        for pth, ret, outs in res:
+            selfv = outs.get(1)
+            if nm == 'shared':
+                ok = isinstance(ret, Agg) and len(ret.items) == 3 and deep_eq(ret.items[WIN], ('stored-window',))
+                if not ok:
+                    bad.append('shared() does not copy window_size')
+                continue
+            if staged_first:
+                rec = ('rec', 'recommended_wnaf_for_num_scalars', 'N') if nm == 'base' else ('rec', 'recommended_wnaf_for_scalar', 'ARG')
+                fld = BASE if nm == 'base' else SCALAR
+                kind = 'table' if nm == 'base' else 'digits'
+                want_buf = (kind, 'ARG', rec)
+                if not (isinstance(selfv, Agg) and selfv.items[fld] == want_buf):
+                    bad.append('the context\'s %s buffer holds %r after the call, expected %s(argument, recommended window): the result would depend on what an earlier call left there' % (names[fld], selfv.items[fld] if isinstance(selfv, Agg) else selfv, kind))
+                if not (isinstance(ret, Agg) and len(ret.items) == 3):
+                    bad.append('does not return a Wnaf')
+                    continue
+                if ret.items[WIN] != rec:
+                    bad.append('returned window is %r, not the recommendation used for the fill' % (ret.items[WIN],))
+                fb, fs = where_ref(ret.items[BASE]), where_ref(ret.items[SCALAR])
+                if fb != ('self', BASE) or fs != ('self', SCALAR):
+                    bad.append('returned context borrows %r / %r, expected its own base / scalar buffers' % (fb, fs))
+            else:
+                fld = BASE if nm == 'base' else SCALAR
+                kind = 'table' if nm == 'base' else 'digits'
+                filled = (kind, 'ARG', ('stored-window',))
+                want = ('exp', filled, 'OLD_DIGITS') if nm == 'base' else ('exp', 'OLD_TABLE', filled)
+                if ret != want:
+                    bad.append('returns %r, expected wnaf_exp(table, digits) with the %s freshly built from the argument and the stored window' % (ret, kind))
+        rep.check(not bad, 'WIRE', 'Wnaf::%s(%s)' % (nm, 'stage 1' if staged_first else ('shared' if nm == 'shared' else 'stage 2')) + (':' + f['impl_self_ty'][:34] if nm == 'shared' else ''),
+                  'buffers refilled from the argument with one window; context refers to its own buffers; wnaf_exp(table, digits)', '; '.join(bad[:3]), where, construct=p)
     rep.floor('WIRE', 'wnaf-context-methods', n, 6)
+
+
+def deep_eq(a, b):
+    return a == b
 
 
 def rules(fx, rep):
